@@ -59,12 +59,14 @@ def t_at(tree, comps):
 
 
 def py_realpath(tree, comps, depth=0, acc=None):
-    """posixpath.realpath on the tree; None = symlink loop."""
+    """posixpath.realpath on the tree; None = symlink loop, or '..' above the root of the tree."""
     acc = list(acc or [])
     for c in comps:
         if c in ("", "."):
             continue
         if c == "..":
+            if not acc:
+                return None          # above the root of the modelled tree: not expressible, never generated
             acc = acc[:-1]
             continue
         n = t_at(tree, acc + [c])
@@ -154,6 +156,7 @@ def gen_canonical(rng):
             defs.append([rng.choice(PMACS), ["P", rng.random() < 0.5, rng.choice(names)]])
         incs = [rng.choice(names) for _ in range(rng.choice([0, 0, 0, 1, 1, 2]))]
         entries.append([rng.randrange(NPLAT), [main, dirs, defs, incs]])
+    entries.sort(key=lambda e: e[0])       # finder.find walks the configuration platform by platform
     return sorted(files.values(), key=lambda f: f[0]), entries
 
 
@@ -301,12 +304,30 @@ def decorate(rng, cfiles, centries, level):
         cf.append([p, ls, ws])
         afiles.append([pstr(p), alias_lines(ls), ws])
     entries = []
-    for pl, (main, dirs, defs, incs) in centries:
+    for j, (pl, (main, dirs, defs, incs)) in enumerate(centries):
         adefs = [[m, (["P", v[1], alias_name(v[2])] if isinstance(v, list) else v)] for m, v in defs]
-        entries.append([pl, [respell(main, "file"), [respell(d, "dir") for d in dirs], adefs, [alias_name(n) for n in incs]]])
-    roots = [respell(CB, "dir")]
+        msp = respell(main, "file")
+        if level >= 1 and incs and rng.random() < 0.5:
+            # a translation unit with forced includes named through a file link that lives in another directory
+            where = rng.choice([d for d in real_dirs(tree) if d != main[:-1]])
+            nm = f"m{j}.c"
+            if t_at(tree, where + [nm]) is None:
+                t_put(tree, where + [nm], ["L", 0, relpath(where, main)] if rng.random() < 0.6 else ["L", 1, list(main)])
+                nlinks += 1
+                links.append(where + [nm])
+                msp = where + [nm]
+        entries.append([pl, [msp, [respell(d, "dir") for d in dirs], adefs, [alias_name(n) for n in incs]]])
+    r = rng.random()
+    if level == 0 or r < 0.84:
+        roots, croots = [respell(CB, "dir")], [CB]
+    elif r < 0.93:
+        roots, croots = [respell(CB, "dir"), respell(["ext"], "dir")], [CB, ["ext"]]
+    else:                              # overlapping directories: the same one twice, or a directory and a sub-directory
+        roots, croots = [respell(CB, "dir"), respell(rng.choice([CB, ["cb", "src"]]), "dir")], [CB]
+        if rng.random() < 0.5:
+            roots.reverse()
     srcs = sorted({p[-1] for p in [[]] + t_walk_all(tree) if p and ext_ok(p[-1])})
-    return {"tree": tree, "afiles": afiles, "cfiles": cf, "roots": roots, "croots": [CB], "srcs": srcs,
+    return {"tree": tree, "afiles": afiles, "cfiles": cf, "roots": roots, "croots": croots, "srcs": srcs,
             "nplat": NPLAT, "entries": entries, "centries": centries, "nlinks": nlinks}
 
 
@@ -319,11 +340,14 @@ def wellformed(case):
     respelled include name denotes the same file as the canonical name from every real directory."""
     tree = case["tree"]
     try:
-        if len(case["entries"]) != len(case["centries"]) or len(case["roots"]) != len(case["croots"]):
+        if len(case["entries"]) != len(case["centries"]):
             return False
-        for a, c in zip(case["roots"], case["croots"]):
-            if py_realpath(tree, a) != list(c):
-                return False
+        rr = [py_realpath(tree, a) for a in case["roots"]]
+        cr = [list(c) for c in case["croots"]]
+        if any(r is None or not any(r[:len(c)] == c for c in cr) for r in rr) or any(c not in rr for c in cr):
+            return False
+        if any(i != j and a[:len(b)] == b for i, a in enumerate(cr) for j, b in enumerate(cr)):
+            return False
         pairs = []
         for (pla, ea), (plc, ec) in zip(case["entries"], case["centries"]):
             if pla != plc or len(ea[1]) != len(ec[1]) or len(ea[2]) != len(ec[2]) or len(ea[3]) != len(ec[3]):
@@ -375,6 +399,79 @@ def wellformed(case):
     except Exception:
         return False
     return True
+
+
+def features(case):
+    """Tags describing which kinds of aliasing a case exercises (for the evidence file)."""
+    tree = case["tree"]
+    tags = set()
+
+    def islink(p):
+        n = t_at(tree, p)
+        return n is not None and n[0] == "L"
+
+    def spelled(sp, what):
+        # walk the spelling physically, remembering what kind of component was just crossed
+        acc = []
+        for i, c in enumerate(sp):
+            if c in ("", "."):
+                tags.add("dot_or_empty_segment")
+                continue
+            if c == "..":
+                tags.add("dotdot_segment")
+                acc = acc[:-1]
+                continue
+            if islink(acc + [c]):
+                last = i == len(sp) - 1
+                tags.add(f"{what}_via_{'final' if last else 'inner'}_link")
+                if not last and sp[i + 1] == "..":
+                    tags.add("dotdot_after_link")
+                acc = py_realpath(tree, acc + [c]) or acc + [c]
+            else:
+                acc = acc + [c]
+    for (pl, e), (_, c) in zip(case["entries"], case["centries"]):
+        spelled(e[0], "entry_file")
+        for d in e[1]:
+            spelled(d, "I_dir")
+        if e[3]:
+            tags.add("forced_include")
+            if islink(py_realpath(tree, e[0][:-1]) + e[0][-1:] if py_realpath(tree, e[0][:-1]) is not None else e[0]):
+                tags.add("forced_include_and_entry_is_file_link")
+        if e[3] != c[3]:
+            tags.add("forced_include_name_alias")
+    for r in case["roots"]:
+        spelled(r, "root")
+    if len(case["roots"]) > 1:
+        tags.add("two_roots")
+        if len(case["croots"]) < len(case["roots"]):
+            tags.add("overlapping_roots")
+    for (k, la, _), (_, lc, _) in zip(case["afiles"], case["cfiles"]):
+        if la != lc:
+            tags.add("include_name_alias_in_file")
+        if any(l[0] == "Once" for l in lc):
+            tags.add("pragma_once_header")
+    croots = [list(c) for c in case["croots"]]
+    for p in t_walk(tree, []):
+        n = t_at(tree, p)
+        if n[0] != "L":
+            continue
+        t = py_realpath(tree, p)
+        tn = t_at(tree, t) if t is not None else None
+        inside = any(p[:len(c)] == c for c in croots)
+        tin = t is not None and any(t[:len(c)] == c for c in croots)
+        if tn is None:
+            tags.add("dangling_link")
+        elif tn[0] == "F":
+            tags.add("file_link_" + ("in" if inside else "out") + "_to_" + ("in" if tin else "out"))
+            if ext_ok(p[-1]) != ext_ok(t[-1]):
+                tags.add("link_and_target_differ_in_sourceness")
+        else:
+            tags.add("dir_link_" + ("in" if inside else "out") + "_to_" + ("in" if tin else "out"))
+        n2 = t_at(tree, ([] if n[1] else p[:-1]) + [c for c in n[2]]) if ".." not in n[2] and "." not in n[2] else None
+        if n2 is not None and n2[0] == "L":
+            tags.add("link_chain")
+        tags.add("absolute_link" if n[1] else "relative_link")
+    return tags
 
 
 def enc_tree(n):
@@ -446,15 +543,25 @@ class C15(Check):
 
     # ------------------------------------------------------------ generation
     def generate(self):
+        out = self._generate()
+        hist = {}
+        for c in out:
+            for t in features(c):
+                hist[t] = hist.get(t, 0) + 1
+        self.stats["input_distribution"] = dict(sorted(hist.items()))
+        self.stats["links_per_case_histogram"] = {str(k): sum(1 for c in out if min(c["nlinks"], 8) == k) for k in range(9)}
+        return out
+
+    def _generate(self):
         out = list(CORPUS_EXTRA)
         out += self.small_block()
-        n = 150 if self.tier == "quick" else 2500
+        n = 150 if self.tier == "quick" else 8000
         for i in range(n):
             cfiles, centries = gen_canonical(self.rng)
             level = 0 if self.rng.random() < 0.05 else 1
             out.append(decorate(self.rng, cfiles, centries, level))
         # malformed stream: entries naming missing files, dangling links, unbalanced files
-        m = 15 if self.tier == "quick" else 150
+        m = 15 if self.tier == "quick" else 400
         for i in range(m):
             cfiles, centries = gen_canonical(self.rng)
             c = decorate(self.rng, cfiles, centries, 1)
@@ -697,6 +804,17 @@ class C15(Check):
         if not all(balanced(ls) for _, ls, _ in case["cfiles"]):
             return False
         return wellformed(case)
+
+    def classify(self, case, ia, sa):
+        """overlapping-roots: a code base given two directories one of which contains (or is) the other;
+        the only accepted symptom is the double enumeration (marks are as specified)."""
+        tree = case["tree"]
+        rr = [py_realpath(tree, a) for a in case["roots"]]
+        overlap = any(i != j and a is not None and b is not None and a[:len(b)] == b
+                      for i, a in enumerate(rr) for j, b in enumerate(rr))
+        if overlap and ia[0] == "Ok" and sa[0] == "Ok" and ia[1] == sa[1] and set(ia[3]) == set(sa[3]):
+            return "overlapping-roots"
+        return None
 
     def nontrivial(self, case, ia):
         if ia[0] != "Ok":
